@@ -16,6 +16,20 @@ from vlib import harness  # noqa: E402
 from vlib import props  # noqa: E402
 
 
+def lean_status():
+    p = os.path.join(ROOT, 'lean', 'status.json')
+    try:
+        st = json.load(open(p))
+        import hashlib
+        h = hashlib.sha256(open(os.path.join(ROOT, 'lean', 'BddTheory.lean'), 'rb').read()).hexdigest()[:16]
+        if st.get('compiled') and st.get('source_hash') == h:
+            return (f"Lean lemmas: lean/BddTheory.lean compiled without sorry by {st.get('lean', 'lean')[:40]} "
+                    f"(leanchecker: {st.get('leanchecker')}; axioms: propext, Classical.choice, Quot.sound)")
+        return 'Lean lemmas: NOT compiled on this machine for the current lean/BddTheory.lean -> ASSUMED'
+    except Exception:  # noqa
+        return 'Lean lemmas: lean/status.json missing (bin/setup not run?) -> ASSUMED'
+
+
 def main(argv=None):
     ap = argparse.ArgumentParser()
     ap.add_argument('pid')
@@ -91,7 +105,7 @@ def main(argv=None):
     coverage['explanation'] = expl
     coverage.setdefault('checker_cmd', f'bin/check {pid} --tier {tier}')
     coverage.setdefault('trusted_base', [])
-    coverage['trusted_base'] = list(coverage['trusted_base']) + list(cfg.get('trusted_base', []))
+    coverage['trusted_base'] = list(coverage['trusted_base']) + list(cfg.get('trusted_base', [])) + [lean_status()]
     coverage.setdefault('obligations', 0)
     coverage.setdefault('discharged', 0)
     if 'evaluations' not in coverage:
